@@ -40,7 +40,7 @@ ASSUMPTIONS = [
     "loop) and therefore counted as skipped, not explored",
     "malformed typed values are explored as the LAST action of a history (from every state that the search expands); inner "
     "positions of a history use one or two representative valid values per type",
-    "jump-to / info-screen jump-to are offered in the first two (quick) / three (thorough) positions of a history",
+    "jump-to is offered in the first two (quick) / three (thorough) positions of a history, the info screen's jump-to in the first (quick) / first two (thorough)",
     "'denotes v' uses Python's int(v, base) / float(v) on both sides (the validator's own reading); textual forms such as 1_0 are C06's subject",
     "conformance through textual.Pilot as in C16",
 ]
@@ -119,14 +119,16 @@ def trees() -> List[Dict[str, Any]]:
     ]
     T("nested_menus_visible_if_depends", kids, {"int": ["3"]}, {"absent": None, "hand": "# CONFIG_A is not set\nCONFIG_B=y\n"}, {"off.cfg": "# CONFIG_A is not set\n", "boff.cfg": "# CONFIG_B is not set\n"})
 
-    # options locked by select and by set
+    # options locked by select / by set
     x = Cfg("X", "bool", prompt="x")
     x.selects.append(("Y", None))
+    kids = [x, Cfg("Y", "bool", prompt="y"), Cfg("Z", "bool", prompt="z", depends=[S("Y")])]
+    T("locked_by_select", kids, {}, {"absent": None, "hand": "CONFIG_X=y\n# CONFIG_Y is not set\n"}, {"off.cfg": "# CONFIG_X is not set\n"})
     a = Cfg("A", "bool", prompt="a")
     a.sets.append(("N", L("7"), None))
     a.sets.append(("SS", L('"f"'), None))
-    kids = [x, Cfg("Y", "bool", prompt="y"), a, Cfg("N", "int", prompt="n", defaults=[(L("1"), None)]), Cfg("SS", "string", prompt="ss", defaults=[(L('"d"'), None)])]
-    T("locked_by_select_and_set", kids, {"int": ["3"], "string": ["u"]}, {"absent": None, "hand": "CONFIG_X=y\nCONFIG_A=y\nCONFIG_N=3\n"}, {"off.cfg": "# CONFIG_X is not set\n# CONFIG_A is not set\n"})
+    kids = [a, Cfg("N", "int", prompt="n", defaults=[(L("1"), None)]), Cfg("SS", "string", prompt="ss", defaults=[(L('"d"'), None)])]
+    T("locked_by_set", kids, {"int": ["3"], "string": ["u"]}, {"absent": None, "hand": "CONFIG_A=y\nCONFIG_N=3\n"}, {"off.cfg": "# CONFIG_A is not set\n"})
 
     # ranges with symbol bounds that can be empty
     kids = [
@@ -134,22 +136,31 @@ def trees() -> List[Dict[str, Any]]:
         Cfg("LO", "int", prompt="lo", prompt_cond=S("A")),
         Cfg("HI", "int", prompt="hi", defaults=[(L("9"), None)]),
         Cfg("R", "int", prompt="r", ranges=[(S("LO"), S("HI"), None)], defaults=[(L("3"), None)]),
+    ]
+    T("range_symbol_bounds_int", kids, {"int": ["4"]}, {"absent": None, "hand": "CONFIG_A=y\nCONFIG_LO=2\n"}, {"off.cfg": "# CONFIG_A is not set\n"}, weight=9)
+    kids = [
+        Cfg("A", "bool", prompt="a"),
         Cfg("HX", "hex", prompt="hx", prompt_cond=S("A")),
         Cfg("H", "hex", prompt="h", ranges=[(L("0x1"), S("HX"), None)], defaults=[(L("0x3"), None)]),
+        Cfg("FH", "float", prompt="fh", prompt_cond=S("A")),
+        Cfg("F", "float", prompt="f", ranges=[(L("0.5"), S("FH"), None)], defaults=[(L("1.5"), None)]),
     ]
-    T("range_symbol_bounds", kids, {"int": ["4"], "hex": ["0x5"]}, {"absent": None, "hand": "CONFIG_A=y\nCONFIG_LO=2\nCONFIG_HX=0x20\n"}, {"off.cfg": "# CONFIG_A is not set\n"})
+    T("range_symbol_bounds_hex_float", kids, {"hex": ["0x5"], "float": ["2.5"]}, {"absent": None, "hand": "CONFIG_A=y\nCONFIG_HX=0x20\nCONFIG_FH=9.5\n"}, {"off.cfg": "# CONFIG_A is not set\n"}, weight=9)
 
-    # every scalar type with and without a range, warning options
+    # every scalar type with and without a range
     kids = [
         Cfg("I", "int", prompt="i", defaults=[(L("1"), None)]),
         Cfg("IR", "int", prompt="ir", ranges=[(L("-5"), L("100"), None)], defaults=[(L("2"), None)]),
+        Cfg("ST", "string", prompt="st", defaults=[(L('"d"'), None)]),
+    ]
+    T("scalars_int_string", kids, {"int": ["7"], "string": ["v"]}, {"absent": None}, {}, weight=5)
+    kids = [
         Cfg("H", "hex", prompt="h", defaults=[(L("0x1"), None)]),
         Cfg("HR", "hex", prompt="hr", ranges=[(L("0x0"), L("0xff"), None)], defaults=[(L("0x2"), None)]),
         Cfg("F", "float", prompt="f", defaults=[(L("1.0"), None)]),
         Cfg("FR", "float", prompt="fr", ranges=[(L("-3.0"), L("2000.0"), None)], defaults=[(L("1.5"), None)]),
-        Cfg("ST", "string", prompt="st", defaults=[(L('"d"'), None)]),
     ]
-    T("scalars_ranges", kids, {"int": ["7"], "hex": ["0x1f"], "float": ["2.5"], "string": ["v"]}, {"absent": None}, {}, depth_cap=3)
+    T("scalars_hex_float", kids, {"hex": ["0x1f"], "float": ["2.5"]}, {"absent": None}, {}, weight=5)
 
     kids = [
         Cfg("W", "bool", prompt="w", warning="danger"),
@@ -161,8 +172,15 @@ def trees() -> List[Dict[str, Any]]:
 
 
 def items(tier: str, seed: int):
+    out = pairs(tier)
+    out.sort(key=lambda it: -it.get("weight", 0))  # biggest searches first
+    return out
+
+
+def pairs(tier: str):
     depth = 4 if tier == "quick" else 5
     jump_prefix = 2 if tier == "quick" else 3
+    info_prefix = 1 if tier == "quick" else 2
     out = []
     for t in trees():
         files = dict(kgen.render(t["prog"]))
@@ -182,6 +200,8 @@ def items(tier: str, seed: int):
                     "loads": loads,
                     "depth": d,
                     "jump_prefix": jump_prefix,
+                    "info_prefix": info_prefix,
+                    "weight": t.get("weight", 1),
                 }
             )
     return out
@@ -352,8 +372,7 @@ def raised_violation(item: Dict[str, Any], h: tuple, e: headless.Raised, r: comm
 
 
 def enabled_for(item: Dict[str, Any], h: tuple, st: headless.Harness) -> List[tuple]:
-    j = len(h) < item["jump_prefix"]
-    return headless.enumerate_actions(st, item["typed"], item["loads"], full=True, jumps=j, info=j)
+    return headless.enumerate_actions(st, item["typed"], item["loads"], full=True, jumps=len(h) < item["jump_prefix"], info=len(h) < item["info_prefix"])
 
 
 def malformed_actions(st: headless.Harness) -> List[tuple]:
@@ -374,15 +393,18 @@ def malformed_actions(st: headless.Harness) -> List[tuple]:
 
 def explore_item(item: Dict[str, Any], r: common.Result, only_history: Any = None):
     spec = item["spec"]
+    P, depth = (), item["depth"]
     memo: Dict[tuple, Dict[str, Any]] = {}
     expanding: Dict[tuple, bool] = {}
+    swept: set = set()
+    leaf_transitions = [0]
 
     def build(h):
-        return headless.replay(spec, h)
+        return headless.replay(spec, P + h)
 
     def enabled(h, st):
         expanding[h] = True
-        return enabled_for(item, h, st)
+        return enabled_for(item, P + h, st)
 
     def canon(st):
         return st.canon()
@@ -391,16 +413,27 @@ def explore_item(item: Dict[str, Any], r: common.Result, only_history: Any = Non
         if not isinstance(e, headless.Raised):
             raise e
         r.evals += 1
-        raised_violation(item, h, e, r)
+        raised_violation(item, P + h, e, r)
 
     def check(h, st):
-        oracle(item, h, st, memo.get(h[:-1]) if h else None, r)
+        if h:
+            pre = memo.get(h[:-1])
+        else:
+            pre = row_obs(headless.replay(spec, P[:-1], keep=True)) if P else None
+        oracle(item, P + h, st, pre, r)
         if st.rejected:
             r.skipped += 1
             r.count("rejected_by_parser")
         if expanding.pop(h, False) and not st.empty:
             memo[h] = row_obs(st)
-            # one further step: every malformed value into every scalar row
+            # one further step: every malformed value into every scalar row.  What happens depends only on the values,
+            # the menu and the rows shown (the action highlights its row itself), so states equal in that projection
+            # are swept once.
+            key = (st.user_key(), st.nid(st.state.cur_menu), st.state.show_all, tuple(st.nid(n) for n in st.state.shown))
+            if key in swept:
+                r.count("malformed_sweeps_skipped_as_equivalent")
+                return
+            swept.add(key)
             for a in malformed_actions(st):
                 h2 = h + (a,)
                 leaf_transitions[0] += 1
@@ -409,21 +442,22 @@ def explore_item(item: Dict[str, Any], r: common.Result, only_history: Any = Non
                 except headless.Raised as e:
                     on_raise(h2, e)
                     continue
-                oracle(item, h2, s2, memo[h], r)
+                oracle(item, P + h2, s2, memo[h], r)
 
-    leaf_transitions = [0]
     try:
         if only_history is not None:
             h = headless.norm_history(only_history)
             try:
-                pre = row_obs(build(h[:-1])) if h else None
-                oracle(item, h, build(h), pre, r)
+                pre = row_obs(headless.replay(spec, h[:-1])) if h else None
+                oracle(item, h, headless.replay(spec, h), pre, r)
             except headless.Raised as e:
                 raised_violation(item, h, e, r)
             return None
         try:
-            st = explore.bfs(build, enabled, canon, check, item["depth"], on_raise=on_raise)
+            st = explore.bfs(build, enabled, canon, check, depth, on_raise=on_raise)
         except headless.Raised as e:
+            if P:
+                return None  # reported by the root item of the pair
             raised_violation(item, (), e, r)
             return None
         r.states += st.states
@@ -460,5 +494,5 @@ def replay(case) -> List[dict]:
 
 def conformance(tier: str, seed: int):
     n = 5 if tier == "quick" else 100
-    its = [it for it in items(tier, seed) if not it["tree"].endswith("_inside")]
+    its = [it for it in pairs(tier) if not it["tree"].endswith("_inside")]
     return c16.conformance_run(__name__, its, n, seed, 4 if tier == "quick" else 5, True)
